@@ -13,6 +13,7 @@ from vlib.symx import assume, concrete, native, pick
 PID = "C14"
 
 KINDS = ["none", "fk", "use_alter"]
+KINDS_U = ["none", "fk", "fk_unnamed"]  # mode "u": named and unnamed foreign keys (no use_alter)
 
 
 def decode(n: int, nk: int, code: int) -> List[List[int]]:
@@ -25,8 +26,10 @@ def decode(n: int, nk: int, code: int) -> List[List[int]]:
     return m
 
 
-def build_metadata(n: int, mat: List[List[int]]):
+def build_metadata(n: int, mat: List[List[int]], kinds=None):
     import sqlalchemy as sa
+
+    KINDS = kinds or globals()["KINDS"]
 
     md = sa.MetaData()
     tables = []
@@ -37,7 +40,7 @@ def build_metadata(n: int, mat: List[List[int]]):
             if k == "none":
                 continue
             cols.append(sa.Column("r%d" % j, sa.Integer,
-                                  sa.ForeignKey("t%d.id" % j, name="fk_%d_%d" % (i, j), use_alter=(k == "use_alter"))))
+                                  sa.ForeignKey("t%d.id" % j, name=(None if k == "fk_unnamed" else "fk_%d_%d" % (i, j)), use_alter=(k == "use_alter"))))
         tables.append(sa.Table("t%d" % i, md, *cols))
     return md, tables
 
@@ -61,8 +64,8 @@ def capture(md, op: str) -> List[str]:
 
 
 _RE_CREATE = re.compile(r"^CREATE TABLE (\w+) \((.*)\)$")
-_RE_INLINE_FK = re.compile(r"CONSTRAINT (\w+) FOREIGN KEY\((\w+)\) REFERENCES (\w+) \((\w+)\)")
-_RE_ALTER_ADD = re.compile(r"^ALTER TABLE (\w+) ADD CONSTRAINT (\w+) FOREIGN KEY\((\w+)\) REFERENCES (\w+) \((\w+)\)$")
+_RE_INLINE_FK = re.compile(r"(?:CONSTRAINT (\w+) )?FOREIGN KEY\((\w+)\) REFERENCES (\w+) \((\w+)\)")
+_RE_ALTER_ADD = re.compile(r"^ALTER TABLE (\w+) ADD (?:CONSTRAINT (\w+) )?FOREIGN KEY\((\w+)\) REFERENCES (\w+) \((\w+)\)$")
 _RE_ALTER_DROP = re.compile(r"^ALTER TABLE (\w+) DROP CONSTRAINT (\w+)$")
 _RE_DROP = re.compile(r"^DROP TABLE (\w+)$")
 
@@ -79,7 +82,8 @@ def simulate(stmts: List[str]) -> Tuple[Optional[str], Dict[str, Tuple[str, str]
             if t in tables:
                 return "table %s created twice" % t, cons, tables
             for c in _RE_INLINE_FK.finditer(m.group(2)):
-                name, _, ref, _ = c.groups()
+                name, colname, ref, _ = c.groups()
+                name = name or "unnamed_%s_%s" % (t, colname)
                 if ref != t and ref not in tables:
                     return "CREATE TABLE %s references %s which does not exist yet" % (t, ref), cons, tables
                 if name in cons:
@@ -89,7 +93,8 @@ def simulate(stmts: List[str]) -> Tuple[Optional[str], Dict[str, Tuple[str, str]
             continue
         m = _RE_ALTER_ADD.match(s)
         if m:
-            t, name, _, ref, _ = m.groups()
+            t, name, colname, ref, _ = m.groups()
+            name = name or "unnamed_%s_%s" % (t, colname)
             if t not in tables or ref not in tables:
                 return "ALTER TABLE %s ADD CONSTRAINT %s: table missing" % (t, name), cons, tables
             if name in cons:
@@ -179,6 +184,66 @@ def _check(n: int, nk: int, code: int) -> bool:
     return True
 
 
+def _cycle_in(n, edges) -> bool:
+    adj = {i: {j for (a, j) in edges if a == i and j != i} for i in range(n)}
+
+    def reach(a, b, seen):
+        for x in adj[a]:
+            if x == b:
+                return True
+            if x not in seen:
+                seen.add(x)
+                if reach(x, b, seen):
+                    return True
+        return False
+
+    return any(reach(i, i, set()) for i in range(n))
+
+
+def _check_unnamed(n: int, code: int) -> bool:
+    """Named and unnamed foreign keys: create_all always works (ALTER .. ADD needs no name); drop_all works
+    unless some cycle consists of unnamed constraints only, in which case the documented
+    CircularDependencyError is the only acceptable outcome."""
+    import sqlalchemy.exc as saexc
+
+    mat = decode(n, 3, code)
+    md, tables = build_metadata(n, mat, KINDS_U)
+    expected = {}
+    for i in range(n):
+        for j in range(n):
+            if KINDS_U[mat[i][j]] == "fk":
+                expected["fk_%d_%d" % (i, j)] = ("t%d" % i, "t%d" % j)
+            elif KINDS_U[mat[i][j]] == "fk_unnamed":
+                expected["unnamed_t%d_r%d" % (i, j)] = ("t%d" % i, "t%d" % j)
+    create = capture(md, "create")
+    err, cons, tabs = simulate(create)
+    if err is not None:
+        raise AssertionError("create_all: " + err + " :: " + " ; ".join(create))
+    if tabs != {"t%d" % i for i in range(n)} or cons != expected:
+        raise AssertionError("create_all constraints %s != expected %s" % (sorted(cons), sorted(expected)))
+    unnamed_edges = [(i, j) for i in range(n) for j in range(n) if KINDS_U[mat[i][j]] == "fk_unnamed"]
+    must_fail = _cycle_in(n, unnamed_edges)
+    try:
+        drop = capture(md, "drop")
+    except saexc.CircularDependencyError:
+        if must_fail:
+            return True
+        raise AssertionError("drop_all: CircularDependencyError although every cycle contains a named constraint")
+    except Exception as e:  # noqa: BLE001
+        raise AssertionError("drop_all: %s: %s" % (type(e).__name__, str(e)[:150]))
+    err, cons2, tabs2 = simulate(create + drop)
+    if err is not None:
+        raise AssertionError("drop_all: " + err + " :: " + " ; ".join(drop))
+    if tabs2 or cons2:
+        raise AssertionError("drop_all left %s %s" % (sorted(tabs2), sorted(cons2)))
+    return True
+
+
+def h_fk_graph_unnamed(n: int, lo: int, hi: int, code: int) -> bool:
+    c = lo + pick(code, hi - lo)
+    return native(_check_unnamed, n, c)
+
+
 def h_fk_graph(n: int, nk: int, lo: int, hi: int, code: int) -> bool:
     c = lo + pick(code, hi - lo)
     return native(_check, n, nk, c)
@@ -194,7 +259,7 @@ META = {
                "thorough": "n=3 complete over {none, fk, use_alter} (19683 graphs), n=4 over {none, fk} without self references restricted to the first 4096 codes"},
     "outside": ["execution on a real PostgreSQL", "indexes, sequences, checkfirst=True", "multi-column and unnamed FK constraints", "n beyond the bound"],
     "stubs": ["backend = DDL interpreter in props/C14.py enforcing referenced-table existence at CREATE/ALTER and dependent constraints at DROP"],
-    "assumptions": ["all FK constraints are named (SQLAlchemy requires names to break cycles at DROP)"],
+    "assumptions": ["fk_graph: all FK constraints are named; fk_graph_unnamed: named and unnamed constraints mixed, drop_all may raise the documented CircularDependencyError exactly when a cycle consists of unnamed constraints only"],
 }
 
 
@@ -210,7 +275,20 @@ def harnesses(tier: str) -> List[Harness]:
         add(2, 3, 3 ** 4, 27)
         add(3, 3, 3 ** 9, 512)
         add(4, 2, 4096, 256)
-    return [Harness("fk_graph", h_fk_graph, sl, budget_s=120 if tier == "quick" else 900)]
+    su = []
+    def addu(n, total, step):
+        for lo in range(0, total, step):
+            su.append(dict(n=n, lo=lo, hi=min(total, lo + step)))
+    addu(2, 3 ** 4, 27)
+    if tier == "quick":
+        addu(3, 3 ** 9, 3 ** 9 // 2 + 1)  # sliced below by max_paths: a prefix only
+    else:
+        addu(3, 3 ** 9, 512)
+    hs = [Harness("fk_graph", h_fk_graph, sl, budget_s=120 if tier == "quick" else 900)]
+    hs.append(Harness("fk_graph_unnamed", h_fk_graph_unnamed, [x for x in su if tier != "quick" or x["n"] == 2] +
+                      ([dict(n=3, lo=k * 1640, hi=k * 1640 + 40) for k in range(12)] if tier == "quick" else []),
+                      budget_s=120 if tier == "quick" else 900))
+    return hs
 
 
 def classify(hname, args, rep):
@@ -221,6 +299,9 @@ def classify(hname, args, rep):
         if k in exc:
             kind = k.replace(" ", "_").replace(":", "")
             break
+    if hname == "fk_graph_unnamed":
+        mat = decode(args["n"], 3, args["lo"] + args["code"] if False else args["code"])
+        return ("C14:unnamed:%s:n=%d" % (kind, args["n"]), "FK graph %s (kinds %s): %s" % (mat, KINDS_U, what))
     mat = decode(args["n"], args["nk"], args["code"])
     n = args["n"]
     selfref = any(mat[i][i] for i in range(n))
